@@ -1,5 +1,5 @@
 (* C09 — property theorems for the code as it is after fixes 1f61a03 and 4ce6577 (statements only; proofs in Proofs_*.v). *)
-From Sdns Require Import Common.Base Gen.C09 C09.Model C09.Proofs_Maps C09.Proofs_Rev C09.Proofs_Step C09.Proofs_Refute C09.Proofs_Prov C09.Proofs_Thm C09.Proofs_Hist.
+From Sdns Require Import Common.Base Gen.C09 C09.Model C09.Proofs_Maps C09.Proofs_Rev C09.Proofs_Step C09.Proofs_Refute C09.Proofs_Prov C09.Proofs_Thm C09.Proofs_Hist C09.Proofs_Live C09.Proofs_Wf.
 Open Scope N_scope.
 
 (* A DNSKEY response carrying no valid signature made with the key material of a
@@ -133,3 +133,71 @@ Theorem missing_90d :
     forall s5, In (WState s5) (r_writes r) -> lookup t s5 = Some (after_refresh now fm t a).
 Proof. exact missing_90d_lemma. Qed.
 Print Assumptions missing_90d.
+
+(* ---------------------------------------------------------------- phase 3 *)
+
+(* The accepting run itself publishes no key of the revoked material, provided all entries of that
+   material in the pre-fetch map sit under one tag (one flags value per public key).  With
+   revocation_permanent this gives: from the accepting run on, never again. *)
+Theorem accepted_revocation_immediate :
+  forall (tag : key -> N) live cfg d now fe fl ksk2 tombs2 m t0,
+    prefetch tag live cfg d now fl = Some (ksk2, tombs2) ->
+    (forall t a, In (t, a) ksk2 -> ta_mat a = m -> t = t0) ->
+    let r := autota tag live cfg d now fe fl in
+    In m (r_revoked r) -> forall key, In key (r_live r) -> k_mat key <> m.
+Proof. exact accepted_revocation_immediate_lemma. Qed.
+Print Assumptions accepted_revocation_immediate.
+
+(* ... and that hypothesis is necessary: the same public key under flags 257 and 1 (two entries of one
+   material); the accepting run still publishes the flags-1 form, for that one run.  Replayed on the Go
+   code (driver kind dualflags, known finding). *)
+Theorem accepted_revocation_immediate_refuted :
+  exists tag s now fe key,
+    let r := run_of tag s now fe no_faults in
+    In 1 (r_revoked r) /\ In key (r_live r) /\ k_mat key = 1 /\
+    ~ In key (s_live (step tag (step tag s (ERun now fe no_faults)) (ERun (now + 1)%Z FErr no_faults))).
+Proof. exact accepted_revocation_immediate_needs_one_tag. Qed.
+Print Assumptions accepted_revocation_immediate_refuted.
+
+(* Liveness of revocation: a REVOKE-flagged, self-signed form K' of a trusted anchor K, present in the
+   response (not shadowed by another key of the same tag), material not yet on record, IS accepted —
+   for every tag function (no relation between tag K' and tag K is needed since 1f61a03), whatever
+   else the response contains and whatever the write faults. *)
+Theorem revocation_accepted :
+  forall (tag : key -> N) live cfg d now keys sigs fl ksk2 tombs2 K K' a,
+    prefetch tag live cfg d now fl = Some (ksk2, tombs2) ->
+    lookup (tag K) ksk2 = Some a -> ta_key a = K -> is_trusted_st a = true -> is_ksk K = true ->
+    is_rev K' = true -> unrev K' = K -> same_except_revoke K K' = true ->
+    lookup (tag K') (fetched_map tag keys) = Some K' ->
+    mem (k_mat K) tombs2 = false ->
+    ident_existing ksk2 (tag K') K' = false ->
+    verify_with tag [K'] sigs = true ->
+    let r := autota tag live cfg d now (FResp keys sigs) fl in
+    In (k_mat K) (r_revoked r) /\ r_out r <> OValidation.
+Proof. exact revocation_accepted_lemma. Qed.
+Print Assumptions revocation_accepted.
+
+(* Well-formed anchor tables (one entry per key tag, every entry filed under the tag of its key) are an
+   invariant of the disk: from a well-formed (e.g. empty) disk, after every history. *)
+Theorem anchor_table_wellformed :
+  forall (tag : key -> N) (h : list event) (s : sys), wfd tag (s_disk s) -> wfd tag (s_disk (exec tag s h)).
+Proof. exact wfd_exec. Qed.
+Print Assumptions anchor_table_wellformed.
+
+(* missing_90d, upper bound: a Missing anchor that is still absent after more than 2160 h is dropped by
+   a fully authenticated run — no written state map has an entry under its tag and, unless both writes
+   fail (then the publication rule keeps the pre-fetch set), its key is no longer live. *)
+Theorem missing_expires :
+  forall (tag : key -> N) live cfg d now keys sigs fl ksk2 tombs2 t a,
+    wfd tag d ->
+    prefetch tag live cfg d now fl = Some (ksk2, tombs2) ->
+    authenticate tag (trusted_keys ksk2) keys sigs = AuthFull ->
+    let fm := fetched_map tag keys in
+    lookup t ksk2 = Some a -> ta_st a = SMissing ->
+    fm_has fm t a = false -> (now - ta_fs a > hold_rem)%Z ->
+    (forall t' k, lookup t' fm = Some k -> is_rev k = true -> same_except_revoke (ta_key a) k = false) ->
+    let r := autota tag live cfg d now (FResp keys sigs) fl in
+    (forall s5, In (WState s5) (r_writes r) -> lookup t s5 = None) /\
+    (f_twrite fl = false \/ f_swrite fl = false -> ~ In (ta_key a) (r_live r)).
+Proof. exact missing_expires_lemma. Qed.
+Print Assumptions missing_expires.
